@@ -524,9 +524,13 @@ func runHelper(c *nd.Ctx, h *hspec, bd hbounds) nd.Result {
 						env.PeerWrite(firstReply)
 						if p.eof {
 							if endsWithTimeout {
-								// nothing more arrives and the connection's read deadline passes
-								// (eg. a close deadline): reads fail with a timeout error
-								env.Lib.SetReadDeadline(time.Unix(1, 0))
+								// nothing more arrives and, once what did arrive has been read,
+								// the connection's read deadline passes (eg. a close deadline):
+								// reads fail with a timeout error from then on
+								vs.GoNamed("read-deadline", true, func() {
+									vsess.Wait("reply-consumed", func() bool { return env.Lib.Pending() == 0 })
+									env.Lib.SetReadDeadline(time.Unix(1, 0))
+								})
 							} else {
 								env.Peer.CloseWrite()
 							}
